@@ -55,7 +55,13 @@ func (f *filler) scalarAny() any {
 }
 
 func (f *filler) structuredAny(depth int) any {
-	switch f.rng.Intn(6) {
+	switch f.rng.Intn(9) {
+	case 6:
+		return []any{} // empty but present
+	case 7:
+		return map[string]any{}
+	case 8:
+		return map[string]any{"empty": []any{}, "none": map[string]any{}, "list": []any{[]any{}, f.scalarAny()}}
 	case 0:
 		return []any{f.scalarAny(), f.scalarAny()}
 	case 1:
